@@ -105,7 +105,7 @@ bsplinebasis(const double* knots, size_t nknots, const double* x, size_t npts, i
 	cholmod_dense* basis;
 	cholmod_sparse* sbasis;
 	size_t nsplines;
-	int row,col,k;
+	size_t row,col,k;
 
 	/*
 	 * This matrix has npts rows and nknots-order-1 columns, with order+1
